@@ -409,7 +409,8 @@ pub fn realise(raw: &RawFacts, cfg: &GenCfg) -> Facts {
     for i in 0..n {
         let node = &raw.nodes[i];
         let replacement = node.repl.and_then(|(mode, p)| match mode {
-            1 => Some(ids[i]),
+            // (id 0 cannot be a replacement: 0 encodes "none" in the binary format)
+            1 => Some(ids[i]).filter(|r| *r != 0),
             2 => {
                 // dangling: an id that is not a term (and not 0: 0 encodes "none" in the binary format)
                 let mut d = 1 + (p as u32) * 151 % (ID_SPACE - 1);
@@ -552,7 +553,10 @@ pub fn realise(raw: &RawFacts, cfg: &GenCfg) -> Facts {
         for d in &raw.dup_terms {
             if !f.terms.is_empty() {
                 let mut t = f.terms[pick(*d, f.terms.len())].clone();
-                t.name = format!("{}-dup", t.name);
+                t.name = format!("dup-{}", t.name);
+                if cfg.names == NameMode::Capped {
+                    t.name = char_prefix(&t.name, 255).to_string();
+                }
                 f.terms.push(t);
             }
         }
